@@ -151,6 +151,7 @@ int main(void)
             if (!guards_ok(&b)) puts("GUARD"); else puts(v ? "1" : "0");
             free(b.base);
         }
+#ifndef C14_OMIT_FLOAT   /* rendering with --omit-float-serialization-support has none of these */
         else if ((!strcmp(c, "sf32") || !strcmp(c, "sf64") || !strcmp(c, "sf16")) && nt == 5)
         {
             Buf b = mkbuf(tok[1]);
@@ -230,6 +231,7 @@ int main(void)
             }
             putchar('\n');
         }
+#endif
         else
         {
             puts("ERR unknown command");
